@@ -8,6 +8,7 @@
      dec    text  -> OK <value> | ERR
      tostr  value -> text                      (std.toString)
      cli    value -> D<default doc> TAB Y<yaml stream doc>|YNONE TAB M<name>=<content>;…|MNONE
+     py     value -> P<std.manifestPython text> TAB V<std.manifestPythonVars text>|VNONE
      erase  text  -> text *)
 open Model
 open Wire
@@ -98,6 +99,10 @@ let handle (fields : ostring list) : ostring =
              | Some l -> "M" ^ String.concat ";" (List.map (fun (k, c) -> of_list_n k ^ "=" ^ of_list_n c) l)
              | None -> "MNONE" in
            "D" ^ of_list_n (cli_default show v) ^ "\t" ^ y ^ "\t" ^ m
+       | "py" ->
+           let v = parse_value payload in
+           "P" ^ of_list_n (manifest_python show v) ^ "\t"
+           ^ (match manifest_python_vars show v with Some t -> "V" ^ of_list_n t | None -> "VNONE")
        | "erase" -> of_list_n (erase_ws (list_n_of payload))
        | _ -> failwith ("manifest: bad op " ^ op))
   | _ -> failwith "manifest: bad case"
